@@ -402,6 +402,22 @@ fn to_git_ref_name(kind: GitRefKind, symbol: RemoteRefSymbol<'_>) -> Option<GitR
     }
 }
 
+/// Re-exports of private pure functions for external runtime monitors.
+#[cfg(jj_vcs_jj_verif)]
+pub mod verif {
+    use super::*;
+
+    /// See [`super::to_git_ref_name()`].
+    pub fn to_git_ref_name(kind: GitRefKind, symbol: RemoteRefSymbol<'_>) -> Option<GitRefNameBuf> {
+        super::to_git_ref_name(kind, symbol)
+    }
+
+    /// See [`super::validate_remote_name()`].
+    pub fn validate_remote_name(name: &RemoteName) -> Result<(), GitRemoteNameError> {
+        super::validate_remote_name(name)
+    }
+}
+
 fn to_git_or_remote_tag_ref_name(symbol: RemoteRefSymbol<'_>) -> GitRefNameBuf {
     let RemoteRefSymbol { name, remote } = symbol;
     let name = name.as_str();
